@@ -27,6 +27,8 @@ Read side (`checkFrameOrder` with PUSH_PROMISE / CONTINUATION exactly as golang.
                              to the first one the order automaton refuses, there the connection
                              error; if none is refused it goes on with the rest in the state the
                              automaton reached;
+* `open_block_every_writer` — inside an open block the frame of EVERY writer is refused, except a
+                             CONTINUATION of the block's stream;
 * `framer_write_read_sequence` — both halves: what a Framer wrote over a call sequence is read back
                              as `readSpec` of the accepted calls.
 -/
@@ -204,6 +206,37 @@ example : readAll 5 { maxReadSize := 16384 }
 example : readSpec 0 [.headers ⟨1, [7], false, false, 0, Priority.zero⟩, .continuation 1 true [8], .settingsAck] =
     [.ok (.headers ⟨1, 1, 0, 1⟩ Priority.zero [7]), .ok (.continuation ⟨1, 9, 4, 1⟩ [8]),
      .ok (.settings ⟨0, 4, 1, 0⟩ [])] := by decide
+
+/-- **open_block_every_writer**: inside an open header block (stream `l ≠ 0`) the frame of EVERY
+writer entry point is refused with the connection error PROTOCOL_ERROR, the reader state untouched —
+except `WriteContinuation` on stream `l`, which is returned and closes the block iff it carries
+END_HEADERS. -/
+theorem open_block_every_writer (a : WOp) (h : a.Wf) (r : Reader) (rest : Bytes)
+    (hopen : r.lastHeaderStream ≠ 0) (hlegal : r.allowIllegalReads = false)
+    (hfit : a.payload.length ≤ r.maxReadSize) :
+    (∀ eh f, a = .continuation r.lastHeaderStream eh f →
+      readFrame r (wire [a] ++ rest) =
+        (.ok a.frame, { r with lastHeaderStream := if eh then 0 else r.lastHeaderStream }, rest)) ∧
+    ((¬ ∃ eh f, a = .continuation r.lastHeaderStream eh f) →
+      readFrame r (wire [a] ++ rest) = (.error (.conn errProtocol), r, rest)) := by
+  have h1 := read_one a h r rest hlegal hfit
+  simp only [wire, List.append_nil]
+  rw [h1, orderStep_open _ _ hopen]
+  constructor
+  · intro eh f ha
+    subst ha
+    cases eh <;> simp [WOp.hdr, WOp.typ, WOp.sid, WOp.flags, b2n, hasFlag, flagEndHeaders]
+  · intro hne
+    have : ¬ (a.hdr.type = tContinuation ∧ a.hdr.streamID = r.lastHeaderStream) := by
+      intro ⟨ht, hs⟩
+      obtain ⟨sid, eh, f, rfl⟩ := (typ_continuation_iff a h).1 ht
+      exact hne ⟨eh, f, by simp only [WOp.hdr, WOp.sid] at hs; rw [hs]⟩
+    simp [this]
+
+/-- a PUSH_PROMISE (with END_HEADERS) inside the open block of its own stream: refused. -/
+example : readFrame { maxReadSize := 16384, lastHeaderStream := 3 }
+    (wire [.pushPromise ⟨3, 2, [9], true, 0⟩]) =
+    (.error (.conn errProtocol), { maxReadSize := 16384, lastHeaderStream := 3 }, []) := by decide
 
 /-- **framer_write_read_sequence**: a Framer that ran ANY sequence of `Write*` calls (from any state;
 `AllowIllegalWrites` off, the underlying writer taking everything, the accepted calls on arguments a
